@@ -28,8 +28,10 @@ type c16Case struct {
 
 func genC16(t *rapid.T) c16Case {
 	c := c16Case{TMs: rapid.SampledFrom([]int{150, 200, 300, 500, 800, 1500}).Draw(t, "t"), Target: "inproc",
-		Script: rapid.SampledFrom([]string{"silent", "after-k", "stall", "stall", "active", "active"}).Draw(t, "script"), OpenFirst: rapid.Bool().Draw(t, "open_first")}
+		Script: rapid.SampledFrom([]string{"silent", "after-k", "stall", "stall", "active", "active", "deaf"}).Draw(t, "script"), OpenFirst: rapid.Bool().Draw(t, "open_first")}
 	switch c.Script {
+	case "deaf":
+		c.Kind = rapid.SampledFrom([]string{"read", "crit", "pipelined"}).Draw(t, "deaf-kind")
 	case "after-k":
 		c.K = rapid.IntRange(1, 12).Draw(t, "k")
 	case "stall":
@@ -63,7 +65,8 @@ func runC16Once(c c16Case, st *hx.Stats) (c16Result, error) {
 		return res, err
 	}
 	defer os.RemoveAll(root)
-	if err := hx.Materialize(root, hx.Dir("", hx.File("f.bin", 5000, 5), hx.Dir("d", hx.File("x", 1, 6)))); err != nil {
+	if err := hx.Materialize(root, hx.Dir("", hx.File("f.bin", 5000, 5), hx.Dir("d", hx.File("x", 1, 6)),
+		&hx.Node{Name: "big.bin", Kind: "file", Size: 1 << 30, Seed: 7, Sparse: true, NoDefaultIslands: true})); err != nil {
 		return res, err
 	}
 	var addr string
@@ -133,6 +136,43 @@ func runC16Once(c c16Case, st *hx.Stats) (c16Result, error) {
 		return nil
 	}
 	switch c.Script {
+	case "deaf":
+		// the client asks for far more than socket buffers hold and then neither reads nor sends: it "does not deliver
+		// a complete next request within T" just like a silent one, while the server is stuck writing to it
+		if err := step(hx.Req{Op: "OPEN_FILE", Path: "/big.bin"}); err != nil {
+			return res, err
+		}
+		var burst []byte
+		switch c.Kind {
+		case "crit":
+			burst = hx.Req{Op: "READ_CRIT", N: 1 << 30, Off: 0}.Encode()
+		case "pipelined":
+			for i := 0; i < 4000; i++ {
+				burst = append(burst, hx.Req{Op: "READ_FILE", N: 65536, Off: uint64(i) * 65536}.Encode()...)
+			}
+		default:
+			burst = hx.Req{Op: "READ_FILE", N: 1 << 30, Off: 0}.Encode()
+		}
+		t0 := time.Now()
+		go conn.Send(burst) // (a pipelined burst may itself block once the server stops reading)
+		released := func() bool {
+			if leaked != nil {
+				return len(leaked()) == 0
+			}
+			return fdCount() <= baseFD
+		}
+		if !waitFor(T+slack+2*time.Second, released) {
+			held := ""
+			if leaked != nil {
+				held = fmt.Sprint(leaked())
+			}
+			return res, hx.Failf("idle-cut", "a client that requested 1 GiB (%s) and then neither read nor sent anything is still being served %v later (T=%v): the connection and its open file are not released %s", c.Kind, time.Since(t0), T, held)
+		}
+		if st != nil {
+			st.NT(fmt.Sprintf("deaf|%d|%s|%s", c.TMs, c.Kind, c.Target))
+		}
+		conn.Close()
+		return res, nil
 	case "silent":
 		if err := expectCut("silent after connect"); err != nil {
 			return res, err
